@@ -23,6 +23,7 @@ from pyvc.proxies import And, Or, Not, Implies, SBool, SInt, SReal, SStr, Len, P
 from pyvc import regex, strmodel
 
 LEVEL = "other"
+STANDIN_ALWAYS_THOROUGH = True      # its large bound takes seconds: used at both tiers
 EXPLANATION = ("MIXED. Locale.format_date proved by SMT on an integer-microsecond model of datetime/timedelta for every date (aware in UTC or any fixed-offset zone, naive, "
                "integer timestamp), clock reading and gmt_offset: relative mode never renders a date more than 60 s in the future as an "
                "'... ago' phrase, and the number in a relative phrase is the elapsed time in its unit rounded to nearest (round-half-even "
